@@ -11,10 +11,15 @@ EXTENDS Integers, Sequences, FiniteSets, Json, IOUtils, TLC
 
 LogT == ndJsonDeserialize(IOEnv.TRACE)
 
-VARIABLES live, dead, bad, prog, l
-vars == <<live, dead, bad, prog, l>>
+\* blocks: the small-buffer blocks the LIBRARY itself holds (allocSmallBuffer<size> .. deallocSmallBuffer<size>,
+\* logged by the guarded MemAlloc / MemFree hooks): a function from block address (logged as a small id) to
+\* the size class it was allocated with.  A block must be returned with the size class it was taken with
+\* (otherwise it migrates to the wrong pool: the pool it came from grows without bound) and no block may be
+\* outstanding at a quiescence point.
+VARIABLES live, dead, bad, prog, l, blocks
+vars == <<live, dead, bad, prog, l, blocks>>
 
-Init == live = {} /\ dead = {} /\ bad = <<>> /\ prog = "" /\ l = 1
+Init == live = {} /\ dead = {} /\ bad = <<>> /\ prog = "" /\ l = 1 /\ blocks = <<>>
 
 Flag(b, what, ev) == IF Len(b) < 4 THEN Append(b, <<what, prog, ev>>) ELSE b
 
@@ -23,24 +28,36 @@ Step ==
   /\ l' = l + 1
   /\ LET ev == LogT[l] IN
      CASE ev.e = "Reset" ->
-            /\ prog' = ev.prog /\ live' = {} /\ dead' = {} /\ UNCHANGED bad
+            /\ prog' = ev.prog /\ live' = {} /\ dead' = {} /\ blocks' = <<>> /\ UNCHANGED bad
        [] ev.e = "Ctor" ->
             /\ live' = live \cup {ev.id}
             /\ bad' = (IF ev.id \in live \cup dead THEN Flag(bad, "id constructed twice", ev)
                        ELSE IF ev.src # 0 /\ ev.src \notin live THEN Flag(bad, "copy/move from an object that is not alive", ev)
                        ELSE bad)
-            /\ UNCHANGED <<dead, prog>>
+            /\ UNCHANGED <<dead, prog, blocks>>
        [] ev.e = "Dtor" ->
             /\ live' = live \ {ev.id} /\ dead' = dead \cup {ev.id}
             /\ bad' = (IF ev.id \notin live THEN Flag(bad, "destroyed an object that is not alive", ev) ELSE bad)
-            /\ UNCHANGED prog
+            /\ UNCHANGED <<prog, blocks>>
        [] ev.e = "Use" ->
             /\ bad' = (IF ev.id \notin live THEN Flag(bad, "used an object that is not alive", ev) ELSE bad)
-            /\ UNCHANGED <<live, dead, prog>>
+            /\ UNCHANGED <<live, dead, prog, blocks>>
        [] ev.e = "Quiesce" ->
-            /\ bad' = (IF live # {} THEN Flag(bad, "payload objects alive at quiescence (leak)", [ids |-> live]) ELSE bad)
+            /\ bad' = (IF live # {} THEN Flag(bad, "payload objects alive at quiescence (leak)", [ids |-> live])
+                       ELSE IF DOMAIN blocks # {} THEN Flag(bad, "small-buffer blocks of the library outstanding at quiescence (leak)", blocks)
+                       ELSE bad)
+            /\ UNCHANGED <<live, dead, prog, blocks>>
+       [] ev.e = "Alloc" ->
+            /\ blocks' = [b \in DOMAIN blocks \cup {ev.id} |-> IF b = ev.id THEN ev.src ELSE blocks[b]]
+            /\ bad' = (IF ev.id \in DOMAIN blocks THEN Flag(bad, "allocator handed out a block that is still held", ev) ELSE bad)
             /\ UNCHANGED <<live, dead, prog>>
-       [] OTHER -> UNCHANGED <<live, dead, bad, prog>>
+       [] ev.e = "Free" ->
+            /\ blocks' = [b \in DOMAIN blocks \ {ev.id} |-> blocks[b]]
+            /\ bad' = (IF ev.id \notin DOMAIN blocks THEN Flag(bad, "block returned that is not held (double free)", ev)
+                       ELSE IF blocks[ev.id] # ev.src THEN Flag(bad, "block returned to a different size class than it was taken from", [ev |-> ev, allocated |-> blocks[ev.id]])
+                       ELSE bad)
+            /\ UNCHANGED <<live, dead, prog>>
+       [] OTHER -> UNCHANGED <<live, dead, bad, prog, blocks>>
 
 Spec == Init /\ [][Step]_vars
 
